@@ -754,6 +754,12 @@ func (c *tcase) opBatchAdd() {
 func (c *tcase) batchAdd(si int) {
 	s := c.slots[si]
 	n := rapid.IntRange(1, 4).Draw(c.t, "nbops")
+	if rapid.IntRange(0, 3).Draw(c.t, "bigbatch") == 0 {
+		// long batches: a backend that reorders or groups the operations of a batch internally (sorting, sharding,
+		// chunking) typically behaves like a short one below some size
+		n = rapid.IntRange(13, 48).Draw(c.t, "nbops_big")
+		c.label("batch_with_13_or_more_operations")
+	}
 	for i := 0; i < n && !c.abort; i++ {
 		var k []byte
 		if len(s.ops) > 0 && rapid.IntRange(0, 9).Draw(c.t, "bk_again") < 4 {
